@@ -510,6 +510,151 @@ def r9_range_constants_exact(ctx, rule="C06.R9"):
     ctx.require(rule, 8)
 
 
+INT_TAGS = ("VInteger", "VLong")
+
+
+def r10_integer_arithmetic_is_direct(ctx, rule="C06.R10"):
+    """`a value that fits is stored, one that does not raises Overflow` - not the other way round:
+    an integer operation that is computed as the negation (or another rewriting) of the mirrored
+    operation overflows in the intermediate step although the result fits
+    (-2147483648& - 0% as -(0% - -2147483648&)).  For both integer operand tags in either order the
+    abstract evaluation of Variant::plus / minus / multiply must not pass through Variant::negate."""
+    prog = ctx.prog
+    VAR = "rusty_variant::variant::Variant"
+    n = 0
+    for op in ("plus", "minus", "multiply"):
+        fs = [f for f in prog.fns.values() if f.crate == "rusty_variant" and f.name == op and f.impl
+              and f.impl["self_ty"].endswith("Variant") and f.kind != "closure"]
+        if len(fs) != 1:
+            raise CheckError("anchor Variant::%s" % op)
+        for a in INT_TAGS:
+            for b in INT_TAGS:
+                seen = []
+
+                def spy(eng, t, args, seen=seen):
+                    cp = t.get("cpath") or ""
+                    if cp.endswith("Variant::negate") and args:
+                        v = tf.deref(args[0])
+                        seen.append(v[2] if v[0] == "tag" else "?")
+                    return None
+                eng = tf.Engine(prog, intrinsics=spy)
+                eng.summary(fs[0], (eng.make(VAR, a, {0: tf.TOP}), eng.make(VAR, b, {0: tf.TOP})))
+                n += 1
+                ctx.decide(not seen, rule, "%s:%s(%s,%s)" % (rule, op, a, b), fs[0].loc, "computed directly",
+                           "Variant::%s of %s and %s is computed through Variant::negate of an intermediate %s result: "
+                           "the intermediate can overflow although the result fits (%s at the lower end of the LONG "
+                           "range raises Overflow for a representable result)" % (op, a, b, seen[:1], op))
+    ctx.require(rule, 12)
+
+
+RUST_TO_TAG = {"i32": "VInteger", "bool": "VInteger", "i64": "VLong", "f32": "VSingle", "f64": "VDouble",
+               "std::string::String": "VString", "&str": "VString"}
+TAG_OF_Q = {"PercentInteger": "VInteger", "AmpersandLong": "VLong", "BangSingle": "VSingle",
+            "HashDouble": "VDouble", "DollarString": "VString"}
+
+
+def r11_builtin_results_have_their_static_type(ctx, T, rule="C06.R11"):
+    """The checker gives every built-in function a fixed result type (TypeQualifier::from(&f)); an
+    assignment `X! = VAL(..)` to a variable of that type emits no Cast.  The value the built-in
+    actually hands to set_built_in_function_result must therefore have that type: its Rust type
+    (i32, String ...) decides the Variant tag, and where a Variant is handed over the tags it can
+    have are computed by abstract interpretation of the producing function."""
+    prog = ctx.prog
+    BIF = [a["id"] for a in prog.adts.values() if a["id"].endswith("::BuiltInFunction") and a["kind"] == "enum"]
+    if len(BIF) != 1:
+        raise CheckError("anchor BuiltInFunction enum")
+    conv = [f for f in prog.fns.values() if f.crate == "rusty_parser" and f.name == "from" and f.impl
+            and f.impl["self_ty"].endswith("TypeQualifier") and "BuiltInFunction" in f.path and "&" in f.path]
+    if len(conv) != 1:
+        raise CheckError("anchor From<&BuiltInFunction> for TypeQualifier: %d" % len(conv))
+    VAR = "rusty_variant::variant::Variant"
+    n = 0
+    for f in sorted(prog.fns.values(), key=lambda f: f.id):
+        if f.crate != "rusty_basic" or "built_ins" not in f.id:
+            continue
+        pv = None
+        for b, t in f.body.calls():
+            if not (t.get("cpath") or "").endswith("set_built_in_function_result") or len(t["args"]) < 3:
+                continue
+            pv = pv or mir.Prov(f.body)
+            which = mir.strip_all(pv.of_operand(t["args"][1]))
+            if which[0] != "agg" or "::" not in (which[2] or ""):
+                continue
+            fname = which[2].split("::")[-1]
+            qs = {tf.deref(x)[2] for x in T.eng.summary(conv[0], (tf.Ref(T.eng.make(BIF[0], fname)),)) if tf.deref(x)[0] == "tag"}
+            if len(qs) != 1:
+                ctx.unknown(rule, "%s:%s" % (rule, fname), f.loc, "static type %s" % sorted(qs))
+                continue
+            want = TAG_OF_Q[next(iter(qs))]
+            g = ((t["f"].get("k") or {}).get("gargs") or [""])[0]
+            if g in RUST_TO_TAG:
+                got = {RUST_TO_TAG[g]}
+            else:
+                o = mir.strip_all(pv.of_operand(t["args"][2]))
+                # look through `expr?` (Try::branch + Continue payload) to the call that produced the value
+                for _ in range(6):
+                    if o[0] in ("field", "downcast"):
+                        o = mir.strip_all(o[1])
+                    elif o[0] == "call" and o[1].endswith("::branch") and o[2]:
+                        o = mir.strip_all(o[2][0])
+                    else:
+                        break
+                got = set()
+                if o[0] == "agg" and (o[2] or "").startswith("Variant::"):
+                    got = {o[2].split("::")[-1]}
+                elif o[0] == "call" and o[1] in prog.by_path:
+                    for callee in prog.by_path[o[1]]:
+                        for x in T.eng.summary(callee, tuple(tf.TOP for _ in range(callee.argc))):
+                            v = tf.deref(x)
+                            if v[0] == "tag" and v[2] in ("Ok", "Some") and v[3]:
+                                v = tf.deref(v[3][0])
+                            if v[0] == "tag" and v[1] == VAR:
+                                got.add(v[2])
+                            elif v[0] == "tag" and v[2] in ("Err", "None"):
+                                pass
+                            else:
+                                got.add("?")
+                else:
+                    got = {"?"}
+                if "?" in got and o[0] == "call" and o[1] in prog.by_path and got - {"?"} <= {want}:
+                    # the abstract interpreter gave up inside a loop; fall back on what the producer can
+                    # build at all: every Variant it constructs, and every Variant-returning call it makes
+                    # (which must be a method of Variant that maps the wanted tag to itself)
+                    structural = set()
+                    for callee in prog.by_path[o[1]]:
+                        for h in [callee] + prog.closures_of(callee):
+                            for blk in h.body.blocks:
+                                for st in blk["s"]:
+                                    r = st.get("r", {})
+                                    if st["k"] == "assign" and r.get("k") == "agg" and r.get("adt") == VAR:
+                                        structural.add(r["variant"])
+                            for _b2, t2 in h.body.calls():
+                                dty = h.body.locals[t2["d"][0]]["ty"] if t2.get("d") else ""
+                                if "Variant" not in dty or "VariantError" in dty and "Variant," not in dty and "<rusty_variant::Variant" not in dty:
+                                    continue
+                                g2 = prog.fns.get(mir.callee_of(t2))
+                                if g2 is None or g2.crate != "rusty_variant":
+                                    structural.add("?")
+                                    continue
+                                for x in T.eng.summary(g2, (T.eng.make(VAR, want, {0: tf.TOP}),)):
+                                    v = tf.deref(x)
+                                    if v[0] == "tag" and v[2] in ("Ok", "Some") and v[3]:
+                                        v = tf.deref(v[3][0])
+                                    if v[0] == "tag" and v[1] == VAR:
+                                        structural.add(v[2])
+                                    elif not (v[0] == "tag" and v[2] in ("Err", "None")):
+                                        structural.add("?")
+                    if structural and "?" not in structural:
+                        got = (got - {"?"}) | structural
+            n += 1
+            ctx.decide(got == {want}, rule, "%s:%s" % (rule, fname), "%s:%s" % (f.file, t.get("ln")),
+                       "result is always a %s" % want,
+                       "the built-in function %s has the static type %s but hands over a value that can be %s: "
+                       "assigned to a variable of the static type no Cast is emitted, so the variable then holds a "
+                       "value of another type" % (fname.upper(), next(iter(qs)), sorted(got)))
+    ctx.require(rule, 20)
+
+
 def run(ctx):
     common.install(ctx)
     T = ot.OpTables(ctx.prog)
@@ -524,3 +669,5 @@ def run(ctx):
     from . import c12
     c12.r4_by_ref_exact(ctx, T, "C06.R8")
     r9_range_constants_exact(ctx)
+    r10_integer_arithmetic_is_direct(ctx)
+    r11_builtin_results_have_their_static_type(ctx, T)
